@@ -72,9 +72,9 @@ theorem hasCuts_len {t : Target} (h : hasCuts false t = true) :
     simp only [Bool.and_eq_true, Bool.not_eq_true', beq_iff_eq] at h
     have hp : t.cols.getD 0 [] = pages := by simp [hc]
     rw [hp]
-    refine ⟨h.1.1.1.2, ?_⟩
-    rw [← h.1.1.1.2]
-    have := h.1.1.1.1
+    refine ⟨h.1.1.1.1.2, ?_⟩
+    rw [← h.1.1.1.1.2]
+    have := h.1.1.1.1.1
     cases pages with
     | nil => simp at this
     | cons _ _ => simp
